@@ -400,7 +400,9 @@ impl Debugger {
                 .debug_info(new_location.pc)?
                 .find_place_from_pc(new_location.global_pc)?
                 .ok_or_else(|| NoFunctionRanges(fn_full_name))?;
-            if place.address != new_location.global_pc {
+            // a row that is not a statement (compiler generated code, line 0) may begin exactly at
+            // the return address: it is not a place to stop at either
+            if place.address != new_location.global_pc || !place.is_stmt {
                 match self.step_in()? {
                     StepResult::SignalInterrupt { signal, .. } => {
                         return Ok(StepResult::signal_interrupt(signal));
